@@ -653,6 +653,20 @@ func safeEncode(lib string, v interface{}) (e []byte, err error, panicked bool) 
 	return
 }
 
+// canonClass names a canonicity failure: input h was accepted as the value dumped in ds, which
+// re-encodes to re != h.  The one known shape gets its own class: the type has optional fields,
+// the re-encoding is shorter (explicitly encoded zero values in a trailing optional position
+// were dropped) and decodes to the same value.  Everything else is "noncanonical".
+func canonClass(t *T, h, re []byte, ds string) string {
+	if t.hasOptional() && len(re) < len(h) {
+		p2 := reflect.New(t.rtype())
+		if err2, pan2 := safeDecode("kai", re, p2.Interface()); err2 == nil && !pan2 && dump(t, p2.Elem()) == ds {
+			return "noncanonical-optional"
+		}
+	}
+	return "noncanonical"
+}
+
 // decodeOp decodes h into a fresh value of t, returns the observable and runs the direct oracles.
 func decodeOp(t *T, h []byte, arbiter bool) string {
 	step++
@@ -683,15 +697,7 @@ func decodeOp(t *T, h []byte, arbiter bool) string {
 		case epan || eerr != nil:
 			o.Fail(step, "reencode-failed", fmt.Sprintf("type=[%s] input=%s %v", t.tokens(), hexs(h), eerr))
 		case !bytes.Equal(re, h):
-			cls := "noncanonical"
-			if t.hasOptional() && len(re) < len(h) {
-				// the one tolerated shape: explicit zero values in a trailing optional position;
-				// the shorter re-encoding must decode to the same value
-				p2 := reflect.New(rt)
-				if err2, pan2 := safeDecode("kai", re, p2.Interface()); err2 == nil && !pan2 && dump(t, p2.Elem()) == ds {
-					cls = "noncanonical-optional"
-				}
-			}
+			cls := canonClass(t, h, re, ds)
 			o.Fail(step, cls, fmt.Sprintf("type=[%s] input=%s decodes to [%s] which encodes to %s", t.tokens(), hexs(h), ds, hexs(re)))
 		}
 	}
@@ -843,9 +849,9 @@ func (n *node) enc(idx *int, at int, variant int, used *string) []byte {
 		*used = "leading-zero-content"
 		pl := append([]byte{0}, payload...)
 		return append(headCanon(small, large, len(pl)), pl...)
-	case 3: // declared size one larger than the content
-		*used = "size-plus-one"
-		return append(headCanon(small, large, size+1), payload...)
+	case 3: // declared size a little larger than the content
+		*used = "size-plus"
+		return append(headCanon(small, large, size+1+me%3), payload...)
 	case 4: // declared size one smaller than the content
 		*used = "size-minus-one"
 		if size == 0 {
@@ -898,7 +904,7 @@ func genHostile(r *gen.Rand, encs [][]byte, n int) []hostile {
 		if len(encs) > 0 {
 			enc = encs[r.Intn(len(encs))]
 		}
-		switch r.Pick(2, 2, 3, 6, 2, 2, 1) {
+		switch r.Pick(2, 2, 3, 6, 2, 2, 1, 1) {
 		case 0: // truncation
 			if len(enc) > 0 {
 				add(append([]byte{}, enc[:r.Intn(len(enc))]...), "truncated")
@@ -938,6 +944,11 @@ func genHostile(r *gen.Rand, encs [][]byte, n int) []hostile {
 			}
 			idx, used := 0, ""
 			b := nd.enc(&idx, r.Intn(nd.count()), r.Intn(12), &used)
+			if r.Chance(1, 3) {
+				// followed by further input: an element that overruns its list but not the input
+				b = append(b, r.Bytes(1+r.Intn(4))...)
+				used += "+trailing"
+			}
 			add(b, "noncanon."+used)
 		case 4: // fixed boundary vectors
 			add(bvecs[r.Intn(len(bvecs))], "boundary")
@@ -949,9 +960,29 @@ func genHostile(r *gen.Rand, encs [][]byte, n int) []hostile {
 				}
 			}
 			add(b, "random")
-		default: // a valid encoding of some other shape
+		case 6: // a valid encoding of some other shape
 			e, _ := rlp.EncodeToBytes(genItem(r, 3))
 			add(e, "valid-item")
+		default: // last element of a list is a list that overruns its parent but not the input
+			var prefix, inner []byte
+			for i := r.Intn(3); i > 0; i-- {
+				e, _ := rlp.EncodeToBytes(genItem(r, 1))
+				prefix = append(prefix, e...)
+			}
+			for i := r.Intn(4); i > 0; i-- {
+				e, _ := rlp.EncodeToBytes(genItem(r, 0))
+				inner = append(inner, e...)
+			}
+			k := 1 + r.Intn(4)
+			small, large := byte(0xC0), byte(0xF7)
+			if r.Chance(1, 4) {
+				small, large = 0x80, 0xB7 // same with a string
+			}
+			in := append(headCanon(small, large, len(inner)+k), inner...)
+			pl := append(prefix, in...)
+			b := append(headCanon(0xC0, 0xF7, len(pl)), pl...)
+			b = append(b, r.Bytes(k+r.Intn(3)-r.Intn(2))...)
+			add(b, "overrun-parent")
 		}
 	}
 	return hs
@@ -1037,6 +1068,9 @@ func rawOps(h []byte) {
 			re = sc
 		case rlp.String:
 			re = append(headCanon(0x80, 0xB7, len(sc)), sc...)
+			if len(sc) == 1 && sc[0] < 0x80 {
+				re = sc // a single byte below 0x80 is its own encoding
+			}
 		default:
 			re = append(headCanon(0xC0, 0xF7, len(sc)), sc...)
 		}
@@ -1415,7 +1449,7 @@ func runCase(r *gen.Rand, c int) {
 				// the decoder's image is a fixed point
 				e2, _, _ := safeEncode("kai", p.Elem().Interface())
 				if !bytes.Equal(e, e2) {
-					o.Fail(step, "noncanonical", fmt.Sprintf("type=[%s] value=[%s] enc=%s reenc=%s", t.tokens(), ds, hexs(e), hexs(e2)))
+					o.Fail(step, canonClass(t, e, e2, d1), fmt.Sprintf("type=[%s] value=[%s] enc=%s decoded=[%s] reenc=%s", t.tokens(), ds, hexs(e), d1, hexs(e2)))
 				}
 			}
 			if isWf {
